@@ -147,5 +147,23 @@ func infoConservation(r *core.Run, prop string, ai *saml2.AssertionInfo, ctx map
 	if ai.SessionIndex != si {
 		return bad("SessionIndex", ai.SessionIndex, si)
 	}
+	var wantAI, wantSN *int64
+	if a0.Authn != nil {
+		wantAI, wantSN = a0.Authn.AuthnInstant, a0.Authn.SessionNotOnOrAfter
+	}
+	inst := func(t *time.Time) *int64 {
+		if t == nil {
+			return nil
+		}
+		v := t.UnixNano()
+		return &v
+	}
+	same := func(x, y *int64) bool { return (x == nil) == (y == nil) && (x == nil || *x == *y) }
+	if g := inst(ai.AuthnInstant); !same(g, wantAI) {
+		return bad("AuthnInstant", world.J(g), world.J(wantAI))
+	}
+	if g := inst(ai.SessionNotOnOrAfter); !same(g, wantSN) {
+		return bad("SessionNotOnOrAfter", world.J(g), world.J(wantSN))
+	}
 	return true
 }
